@@ -115,7 +115,7 @@ func RotateNodeCredentials(
 	// from that node so we trust the request. First we send it through
 	// AuthorizeNode to register it and derive new keys; then, we call a fetch
 	// on it and return the result, encrypted with the new keys.
-	_, err = registration.AuthorizeNode(ctx, storage, fetchRequest, append(opt, nodeenrollment.WithState(currentNodeInfo.State))...)
+	newNodeInfo, err := registration.AuthorizeNode(ctx, storage, fetchRequest, append(opt, nodeenrollment.WithState(currentNodeInfo.State))...)
 	if err != nil {
 		err := fmt.Errorf("error authorizing node with request: %w", err)
 		opts.WithLogger.Error(err.Error(), "op", op)
@@ -126,6 +126,11 @@ func RotateNodeCredentials(
 	// against the _new_ keys.
 	fetchResp, err := registration.FetchNodeCredentials(ctx, storage, fetchRequest, opt...)
 	if err != nil {
+		// The new credentials cannot be handed out, so do not leave them
+		// registered: a refused rotation must not change what is authorized
+		if rmErr := storage.Remove(ctx, newNodeInfo); rmErr != nil {
+			err = errors.Join(err, fmt.Errorf("error removing newly authorized node information: %w", rmErr))
+		}
 		err := fmt.Errorf("error getting new fetch credentials response: %w", err)
 		opts.WithLogger.Error(err.Error(), "op", op)
 		return nil, fmt.Errorf("(%s) %s", op, err.Error())
